@@ -30,6 +30,8 @@ def designs():
     yield 'seq', NL(2, [('dff', 'g0')], [('AND2', ('i0', 'q0')), ('NOR2', ('n0', 'i1'))], ['g1'])
     yield 'ao', NL(3, [], [('AO21', ('i0', 'i1', 'i2')), ('BUF1', ('g0',))], ['g1'])
     yield 'open', NL(2, [], [('NAND2', ('i0', None)), ('NOR2', (None, 'i1'))], ['g0', 'g1'])
+    # same pin names at different pin positions in different cell kinds (NANGATE: B1 is pin 1 of AOI21 and pin 2 of AOI22)
+    yield 'mixpins', NL(4, [], [('AOI21', ('i0', 'i1', 'i2')), ('AOI22', ('i0', 'i1', 'i2', 'i3')), ('OAI21', ('g0', 'g1', 'i3'))], ['g2'])
 
 
 FORMS = ['rf', 'r', 'ef', 're']
@@ -95,7 +97,7 @@ def build_design(libname, dname, bf, escape):
     nl = dict(designs())[dname]
     cmap = render.cell_map(lib)
     dff = render.DFF_CELLS[libname]
-    text, ports, inst = render.verilog(nl, cmap, dff, render.VOpts(escape=escape))
+    text, ports, inst, _, _ = render.verilog(nl, cmap, dff, render.VOpts(escape=escape))
     c = verilog.parse(text, tlib=lib, branchforks=bf)
     # instances and their pins
     instances = []
